@@ -132,7 +132,7 @@ UNITS = [
 VERIFIED_CALLEES = ("ast_get_call_positional_indexes", "ast_get_call_keyword_names", "get_arg_kind_index")
 LEVEL = "other"
 TECHNIQUE = "contract-based verification of the list-algebra helpers (complete case analysis of small shapes through the real AST) + bounded comparison of the resolver with the interpreter on generated source files"
-LEVEL_TEXT = "The resolver proper is a static analysis of the user's source: no contract within reach expresses its soundness; it is compared with the interpreter by the bounded harness (1276 generated programs). Proved are the list-algebra helpers that implement three clauses: remove_given_parameters (hard-coded positions and keywords are not offered, order kept), replace_args_and_kwargs (no duplicate names, every element is an object of its own signature), split_args_and_kwargs - complete case analysis of all shapes with <= 4 parameters."
+LEVEL_TEXT = "The AST resolver proper is a static analysis of the user's source: its soundness is compared with the interpreter by the bounded harness (about 1300 generated programs written to real files, incl. resolution histories). Verified are the helpers that implement the clauses: get_signature_parameters (resolver order; a failing or not-applying resolver hands over), remove_given_parameters (hard-coded positions and keywords are not offered), replace_args_and_kwargs (no duplicate names), split_args_and_kwargs, group_parameters (a parameter accepted by every forwarding use with one type and at most one default keeps them - required stays required -, otherwise conditional with exactly the defaults of its uses; 8400 use patterns), and the MRO cursor: ast_is_supported_super_call (super(X, self) moves the cursor to X's absolute position), get_mro_parameters (next class that defines the method itself), mro_context (cursor restored on every exit)."
 LEVEL_NOTE = "under construction"
 EXPLANATION = "under construction"
 ASSUMPTIONS = []
